@@ -9,5 +9,6 @@ open Jomini.Props.C01
 #print axioms C01_step_blank_key_open
 #print axioms C01_step_blank_parseopen_open
 #print axioms C01_C06_text_checker_sound
+#print axioms C01_C06_text_inv
 #print axioms C01_C19_quote_not_extended
 #print axioms C01_C19_scalar_not_merged
